@@ -12,7 +12,7 @@ ID = 'C19'
 LEVEL = 'exploration'
 RULE = ('Engine A: frames with G in {2,3,4,5,6} geos (>= 4 needed for the noisy-geo screen) x 3 | 5 trends x planted noisy geo in '
         '{none, each position} x planted outlier date in {none, three positions} x default / custom column names and group labels x extra geos outside the experiment in {none, unassigned label, another label, both}; '
-        'each frame is fitted in 3 row orders and once with repeated (non-unique) row index labels. Oracle (consistency, not prediction): get_data() == input rows minus every row of '
+        'each frame is fitted in 3 row orders, once with repeated (non-unique) row index labels, once on an object that has already screened ANOTHER data set, and with the date column as ISO strings / as datetime.date objects. Oracle (consistency, not prediction): get_data() == input rows minus every row of '
         'the reported noisy geos and of the reported outlier dates (as multisets of rows); get_analysis_data() == per-date control '
         '/ treatment totals of that; the caller\'s frame is unchanged; reported results identical for all row orders. '
         'Non-trivial = something was reported and removed; distinct = distinct case.')
@@ -81,8 +81,8 @@ def run_case(case):
 
     def add(key, msg):
         viol.append({'key': 'C19:' + key, 'msg': msg})
-    for order in ('sorted', 'reversed', 'mixed', 'repeated-index-labels'):
-        if order == 'sorted':
+    for order in ('sorted', 'reversed', 'mixed', 'repeated-index-labels', 'refit', 'dates-as-strings', 'dates-as-date-objects'):
+        if order in ('sorted', 'refit', 'dates-as-strings', 'dates-as-date-objects'):
             d0 = df
         elif order == 'reversed':
             d0 = df.iloc[::-1]
@@ -93,8 +93,20 @@ def run_case(case):
             # like pd.concat of per-group pieces without ignore_index, or a frame indexed by something non-unique:
             # the row labels repeat across geos (only the COLUMNS are documented input)
             d0.index = [i % 7 for i in range(len(d0))]
+        if order == 'dates-as-strings':         # e.g. read_csv without parse_dates: ISO strings
+            d0[names['date']] = d0[names['date']].dt.strftime('%Y-%m-%d')
+        elif order == 'dates-as-date-objects':  # datetime.date objects in an object column
+            d0[names['date']] = pd.Series([x.date() for x in d0[names['date']]], index=d0.index, dtype=object)
         before = d0.copy(deep=True)
         t = tbrdiagnostics.TBRDiagnostics()
+        if order == 'refit':
+            # NON-INITIAL state: the object has screened ANOTHER data set (other geos, planted noisy geo and outlier) before
+            d1, kw1 = frame(5, 14, 4, case['seed'] + 1, 2, 5, False)
+            try:
+                t.fit(d1, target='response', **kw1)
+                t.get_data(), t.get_analysis_data(), t.get_test_results()
+            except ValueError:
+                pass
         try:
             t.fit(d0, target=names['resp'], **kw)
         except Exception as e:
@@ -110,7 +122,8 @@ def run_case(case):
         r = t.get_test_results()
         noisy_g = list(r['noisy_geos'] or [])
         outl = list(r['outlier_dates'] or [])
-        exp = d0[~d0[names['geo']].isin(noisy_g) & ~d0[names['date']].isin(outl)]
+        # dates are matched by calendar day, whatever the dtype of the column / of the reported values
+        exp = d0[~d0[names['geo']].isin(noisy_g) & ~pd.to_datetime(d0[names['date']]).isin(pd.to_datetime(pd.Series(outl, dtype=object)))]
         got = t.get_data()
         if canon(got) != canon(exp):
             add('screened-data-mismatch', 'get_data() has %d rows, input minus reported noisy geos %s and outlier dates %s has %d rows (or rows differ)' % (
